@@ -549,6 +549,17 @@ def run_modules(ctx, mods):
                     want_ok = dk["could"] == "1"
                     good = (kv["ok"] == "1") == want_ok and (not want_ok or int(kv["rb"]) == int(dk["rb"]))
                     ctx.count("text:%s" % ("numeric-base-%s" % kv["base"] if t == "FT" else "round-trip"))
+                    if t == "FRT":
+                        # what WriteToString wrote: the first declared name of the value, or its (signed) decimal numeral
+                        txt = bytes.fromhex(kv["text"]).decode("latin-1").strip()
+                        names = [x["name"] for x in md["enums"][f["enum"]]["values"] if x["value"] == v]
+                        want_txt = names[0] if names else str(v)
+                        ctx.count("text:written-" + ("name" if names else "negative-numeral" if v < 0 else "numeral"))
+                        if txt != want_txt:
+                            ctx.violation("enum-text-written",
+                                          "WriteToString of enum field %s (%d bits, %s int%d) holding %d writes %r, expected %r"
+                                          % (f["name"], f["kbits"], "signed" if ts else "unsigned", tb, v, txt, want_txt),
+                                          dict(kind="enum-module", module=md, field=f["name"], value=v), found_input=True)
                     if not good:
                         what = ("UpdateFromText of numeric text (base %s)" % kv["base"]) if t == "FT" else \
                                ("UpdateFromText(WriteToString) [text %r]" % bytes.fromhex(kv["text"]).decode("latin-1"))
